@@ -155,10 +155,17 @@ pub fn corpus(seed: u64, big: bool) -> Vec<Seed> {
     for i in 0..12usize {
         let mut fm = gen_frag_movie(&mut rng, 3, 2, 6, i % 3 != 0);
         fm.movie.tracks[0].codec = codecs[i % 5];
-        let b = build_fragmented(&fm);
+        // every third fragmented subject carries 64-bit mdat headers (a largesize field for the
+        // mutators on the fragment path)
+        let large_mdat = i % 3 == 1;
+        let b = build_fragmented_x(&fm, &|_| {}, &|bx| {
+            if large_mdat && &bx.typ == b"mdat" {
+                bx.large = true;
+            }
+        });
         let init = b.init.clone();
         v.push(seed_from_ser(&format!("frag{}", i), b.whole, None));
-        if i % 2 == 0 {
+        if i % 2 == 0 || large_mdat {
             v.push(seed_from_bytes(&format!("segment{}", i), b.segment, Some(init)));
         }
     }
